@@ -24,7 +24,7 @@ for cl in (0, 1, 3, 40):
                         "remove": {"sm2_enc.c": ["sm2_encrypt_pre_compute", "sm2_do_encrypt", "sm2_do_encrypt_ex", "sm2_do_encrypt_fixlen", "sm2_do_decrypt", "sm2_kdf",
                                                  "sm2_encrypt", "sm2_encrypt_fixlen", "sm2_decrypt", "sm2_encrypt_init", "sm2_encrypt_update", "sm2_encrypt_finish",
                                                  "sm2_encrypt_reset", "sm2_decrypt_init", "sm2_decrypt_update", "sm2_decrypt_finish", "sm2_decrypt_reset"]},
-                        "defs": ["-DCL=%d" % max(cl, 1), "-DZMAX=%d" % (1 if cl == 0 else 2)], "cbmc": ["--max-field-sensitivity-array-size", "300"], "unwind": 45, "timeout": 900, "tier": "quick" if cl == 0 else "thorough", "mem_gb": 24,
+                        "defs": ["-DCL=%d" % max(cl, 1), "-DZMAX=%d" % (1 if cl == 0 else 2)], "cbmc": ["--max-field-sensitivity-array-size", "300"], "unwind": 45, "timeout": 900, "tier": "quick" if cl == 0 else "thorough", "mem_gb": 24, "object_bits": 12,
                         "title": "SM2Cipher DER: from_der(to_der(C)) = C for coordinates with 0..2 leading zero bytes, dry run = written",
                         "bounds": "C2 of %d bytes; x, y with exactly 0..2 leading zero bytes, first significant byte 0x5a or 0x85, other bytes arbitrary (case split)" % cl})
 for nm, entry, ti, df in (("ecdh_agree", "h_ecdh_agree", "sm2_ecdh: both parties obtain the coordinates of [dA dB]G", []),
